@@ -14,3 +14,5 @@ import LexVerif.Model.Ops.WriteInt
 import LexVerif.Model.Iter
 import LexVerif.Model.ParseNumber
 import LexVerif.Model.Ops.ParseFloat
+-- string→float algorithm models (fast path, Eisel–Lemire, Bellerophon, power-of-two) and their op handlers
+import LexVerif.Model.Ops.ParseAlgos
